@@ -52,14 +52,26 @@ def _ensure_repo_on_path() -> None:
         sys.path.insert(0, REPO)
 
 
-def install() -> None:
+_default_plan: dict | None = None
+_captured_plan = None
+
+
+def set_default_plan(plan: dict) -> None:
+    """Fault plan used when the compiler is entered without the harness (CLI subprocess)."""
+    global _current, _default_plan
+    _default_plan = plan
+    _current = Harness(plan)
+
+
+def install(quiet_logging: bool = True) -> None:
     """Patch the seams (idempotent). Must run in the process that compiles."""
     global _installed, _real_cp_model, _real_route_signal
     if _installed:
         return
     _ensure_repo_on_path()
-    logging.disable(logging.CRITICAL)
-    warnings.simplefilter("ignore")
+    if quiet_logging:
+        logging.disable(logging.CRITICAL)
+        warnings.simplefilter("ignore")
 
     from ortools.sat.python import cp_model as real
 
@@ -172,6 +184,18 @@ def install() -> None:
             self.parser, self.transformer = ent
 
     parser_mod.DSLParser._load_grammar = _load_grammar
+
+    # observer: remember the layout plan the emitter was given (C07 compares it with the text)
+    import dsl_compiler.src.emission.emitter as emitter_mod
+
+    real_emit = emitter_mod.BlueprintEmitter.emit_from_plan
+
+    def emit_from_plan(self, layout_plan):
+        global _captured_plan
+        _captured_plan = layout_plan
+        return real_emit(self, layout_plan)
+
+    emitter_mod.BlueprintEmitter.emit_from_plan = emit_from_plan
     _installed = True
 
 
@@ -242,6 +266,8 @@ def compile_source(
     install()
     from dsl_compiler.cli import compile_dsl_source
 
+    global _captured_plan
+    _captured_plan = None
     h = Harness(plan)
     _current = h
     out: dict = {"ok": False, "bp": None, "error": None, "stage": None, "crash": False}
@@ -282,7 +308,8 @@ def compile_source(
         out["stage"] = "crash"
         out["crash"] = True
     finally:
-        _current = None
+        _current = Harness(_default_plan) if _default_plan else None
+    out["plan_obj"] = _captured_plan if out["ok"] else None
     out["events"] = h.events
     out["fired"] = h.fired
     out["solve_calls"] = h.solve_calls
